@@ -50,15 +50,10 @@ func statusWrites(c *chk.Ctx, f *ssa.Function) []statusWrite {
 // the bridge's parse hook named by its role rather than by its field name.
 func describeHTTPCond(cd ir.Cond) string {
 	fieldName := func(v ssa.Value) string {
-		u, ok := v.(*ssa.UnOp)
-		if !ok {
+		_, fv, ok := ir.FieldRead(v)
+		if !ok || fv == nil {
 			return ""
 		}
-		fa, ok := u.X.(*ssa.FieldAddr)
-		if !ok {
-			return ""
-		}
-		fv := ir.FieldVar(fa)
 		if sig, isSig := fv.Type().Underlying().(*types.Signature); isSig && sig.Results().Len() >= 1 && strings.Contains(sig.Results().At(0).Type().String(), "ParsedRequest") {
 			return "parseReq" // the POST parse hook, whatever the field is called
 		}
@@ -492,10 +487,45 @@ func dedupConds(cs []ir.Cond) []ir.Cond {
 	return out
 }
 
+// bridgeServeFunc is the Bridge's internal serve function: the function
+// ServeHTTP calls that issues the requests with Client.Batch.
+func bridgeServeFunc(c *chk.Ctx) *ssa.Function {
+	entry := jhttpFunc(c, "(Bridge).ServeHTTP")
+	if entry == nil {
+		return nil
+	}
+	if f := jhttpFunc(c, "(Bridge).serveInternal"); f != nil {
+		return f
+	}
+	// by role: the function ServeHTTP calls, under which the requests are issued with Client.Batch
+	var out *ssa.Function
+	n := 0
+	ir.Calls(entry, func(ci ssa.CallInstruction) {
+		g := ci.Common().StaticCallee()
+		if g == nil || !c.P.InRepo[g] || g == out {
+			return
+		}
+		has := false
+		c.P.ExtCalls(g, func(ci2 ssa.CallInstruction) {
+			if callee := ci2.Common().StaticCallee(); callee != nil && ir.BaseName(callee) == "Batch" && ir.RecvNamed(callee) == c.M.Client {
+				has = true
+			}
+		})
+		if has {
+			out = g
+			n++
+		}
+	})
+	if n == 1 {
+		return out
+	}
+	return nil
+}
+
 // ruleBridgeGate: C18-D1.
 func ruleBridgeGate(c *chk.Ctx) {
 	f := jhttpFunc(c, "(Bridge).ServeHTTP")
-	si := jhttpFunc(c, "(Bridge).serveInternal")
+	si := bridgeServeFunc(c)
 	if f == nil || si == nil {
 		c.Undecided("TABLE.gate", nil, "bridge entry", 0, "Bridge.ServeHTTP / serveInternal not found")
 		return
@@ -588,7 +618,7 @@ func ruleBridgeGate(c *chk.Ctx) {
 
 // ruleBridgeIDs: C18-D2/D3/D4.
 func ruleBridgeIDs(c *chk.Ctx) {
-	f := jhttpFunc(c, "(Bridge).serveInternal")
+	f := bridgeServeFunc(c)
 	if f == nil {
 		c.Undecided("PAIR.ids", nil, "serveInternal", 0, "not found")
 		return
@@ -613,7 +643,7 @@ func ruleBridgeIDs(c *chk.Ctx) {
 			// responses are appended after the Batch call, error objects before it
 			after := false
 			c.P.ExtCalls(f, func(ci ssa.CallInstruction) {
-				if g := ci.Common().StaticCallee(); g != nil && g.Name() == "Batch" && (ir.InstrDominates(ci, call) || (ci.Parent() != call.Parent() && c.P.IDominates(ci, call))) {
+				if g := ci.Common().StaticCallee(); g != nil && ir.BaseName(g) == "Batch" && (ir.InstrDominates(ci, call) || (ci.Parent() != call.Parent() && c.P.IDominates(ci, call))) {
 					after = true
 				}
 			})
@@ -716,7 +746,7 @@ func ruleBridgeIDs(c *chk.Ctx) {
 	okSet := false
 	c.P.ExtCalls(f, func(ci ssa.CallInstruction) {
 		g := ci.Common().StaticCallee()
-		if g == nil || g.Name() != "SetID" {
+		if g == nil || ir.BaseName(g) != "SetID" {
 			return
 		}
 		arg := c.P.Canon(ci.Common().Args[1])
@@ -892,7 +922,7 @@ func ruleGetterStatus(c *chk.Ctx) {
 		}) {
 			switch y := src.(type) {
 			case *ssa.Call:
-				if g := y.Call.StaticCallee(); g != nil && (g.Name() == "CallResult" || g.Name() == "Call") {
+				if g := y.Call.StaticCallee(); g != nil && (ir.BaseName(g) == "CallResult" || ir.BaseName(g) == "Call") {
 					return "call"
 				}
 				return "parse"
@@ -920,7 +950,7 @@ func ruleGetterStatus(c *chk.Ctx) {
 		if bo, ok := cd.V.(*ssa.BinOp); ok && (bo.Op == token.EQL || bo.Op == token.NEQ) {
 			if k, isK := ir.ConstInt(bo.Y); isK && k == mnf {
 				// (the code may reach a private status helper as a parameter)
-				if call, ok := c.P.Canon(bo.X).(*ssa.Call); ok && call.Call.StaticCallee() != nil && call.Call.StaticCallee().Name() == "ErrorCode" {
+				if call, ok := c.P.Canon(bo.X).(*ssa.Call); ok && call.Call.StaticCallee() != nil && ir.BaseName(call.Call.StaticCallee()) == "ErrorCode" {
 					if (bo.Op == token.EQL) == cd.Truth {
 						return "mnf"
 					}
@@ -1076,6 +1106,86 @@ func ruleGetterStatus(c *chk.Ctx) {
 			})
 		}
 		c.Check(okBody, "TABLE.getter", wj, "JSON bodies", wj.Pos(), "the body written is json.Marshal's result on its err == nil edge", "the body written by writeJSON is not a checked json.Marshal result")
+		// and nothing else is written as a body, except where json.Marshal itself failed
+		isMarshalErr := func(x ssa.Value) bool {
+			x = ir.NormCell(x)
+			if e, ok := x.(*ssa.Extract); ok && e.Index == 1 {
+				if call, ok := e.Tuple.(*ssa.Call); ok && ir.IsCallTo(&call.Call, "encoding/json.Marshal") {
+					return true
+				}
+			}
+			if u, ok := x.(*ssa.UnOp); ok && u.Op == token.MUL {
+				if fa, ok := u.X.(*ssa.FieldAddr); ok && ir.FieldVar(fa) != nil {
+					stores := c.P.FieldStores(ir.FieldVar(fa))
+					all := len(stores) > 0
+					for _, es := range stores {
+						e, ok := es.Val.(*ssa.Extract)
+						if !ok || e.Index != 1 {
+							all = false
+							continue
+						}
+						if call, ok := e.Tuple.(*ssa.Call); !ok || !ir.IsCallTo(&call.Call, "encoding/json.Marshal") {
+							all = false
+						}
+					}
+					return all
+				}
+			}
+			return false
+		}
+		isWriter := func(v ssa.Value) bool {
+			if v == nil {
+				return false
+			}
+			return strings.HasSuffix(v.Type().String(), "net/http.ResponseWriter")
+		}
+		bad := ""
+		c.P.ExtCalls(wj, func(ci ssa.CallInstruction) {
+			cc := ci.Common()
+			body := false
+			if cc.IsInvoke() && isWriter(cc.Value) {
+				switch cc.Method.Name() {
+				case "Write":
+					body = true
+					if e, ok := cc.Args[0].(*ssa.Extract); ok && e.Index == 0 {
+						if call, ok := e.Tuple.(*ssa.Call); ok && ir.IsCallTo(&call.Call, "encoding/json.Marshal") {
+							body = false
+						}
+					}
+					if u, ok := cc.Args[0].(*ssa.UnOp); ok && u.Op == token.MUL {
+						if _, isF := u.X.(*ssa.FieldAddr); isF {
+							body = false // the reply-record form, judged above
+						}
+					}
+				}
+			} else if g := cc.StaticCallee(); g != nil && !c.P.InRepo[g] {
+				for _, a := range cc.Args {
+					x := a
+					if mi, ok := x.(*ssa.MakeInterface); ok {
+						x = mi.X
+					}
+					if ci2, ok := x.(*ssa.ChangeInterface); ok {
+						x = ci2.X
+					}
+					if isWriter(x) {
+						body = true
+					}
+				}
+			}
+			if !body {
+				return
+			}
+			failed := false
+			for _, cd := range c.P.CondsWithin(ci, wj) {
+				if x, eq, isCmp := ir.NilCompare(cd.V); isCmp && eq != cd.Truth && isMarshalErr(x) {
+					failed = true
+				}
+			}
+			if !failed && bad == "" {
+				bad = c.P.Pos(ci.Pos())
+			}
+		})
+		c.Check(bad == "", "TABLE.getter", wj, "no body but JSON", wj.Pos(), "the only body written besides the marshalled value is the fallback where json.Marshal itself failed", "the reply writer writes a body that is not marshalled JSON (at "+bad+", outside the json.Marshal failure fallback): a caller would get a reply whose body is not valid JSON")
 	}
 }
 
@@ -1084,7 +1194,7 @@ func ruleQueryParams(c *chk.Ctx) {
 	allowed := map[string]bool{"string": true, "int64": true, "float64": true, "bool": true, "[]byte": true, "untyped nil": true}
 	n := 0
 	for _, name := range []string{"ParseQuery", "ParseBasic"} {
-		f := c.M.JhttpPkg.Func(name)
+		f := c.M.Func(c.M.JhttpPkg, name)
 		if f == nil {
 			c.Undecided("PROV.params", nil, name, 0, "not found")
 			continue
@@ -1311,7 +1421,7 @@ func ruleBodiesClosed(c *chk.Ctx) {
 // C20
 
 func ruleLoop(c *chk.Ctx) {
-	loop := c.M.ServerPkg.Func("Loop")
+	loop := c.M.Func(c.M.ServerPkg, "Loop")
 	if loop == nil {
 		c.Undecided("PAIR.loop", nil, "Loop", 0, "not found")
 		return
@@ -1396,7 +1506,7 @@ func ruleLoop(c *chk.Ctx) {
 			nFinish++
 		case cc.IsInvoke() && cc.Method.Name() == "Close":
 			closeCh = call
-		case cc.StaticCallee() != nil && cc.StaticCallee().Name() == "Start" && ir.RecvNamed(cc.StaticCallee()) == c.M.Server:
+		case cc.StaticCallee() != nil && ir.BaseName(cc.StaticCallee()) == "Start" && ir.RecvNamed(cc.StaticCallee()) == c.M.Server:
 			start = call
 		case cc.StaticCallee() != nil && ir.RecvNamed(cc.StaticCallee()) == c.M.Server && strings.HasSuffix(cc.StaticCallee().Signature.Results().String(), "ServerStatus)"):
 			wait = call
@@ -1415,7 +1525,7 @@ func ruleLoop(c *chk.Ctx) {
 	okSrv := false
 	// (Start returns its receiver: the server is the constructor's result or Start's)
 	var srvNew *ssa.Call
-	if nsCall, ok := ir.NormCell(start.Call.Args[0]).(*ssa.Call); ok && nsCall.Call.StaticCallee() != nil && nsCall.Call.StaticCallee().Name() == "NewServer" {
+	if nsCall, ok := ir.NormCell(start.Call.Args[0]).(*ssa.Call); ok && nsCall.Call.StaticCallee() != nil && ir.BaseName(nsCall.Call.StaticCallee()) == "NewServer" {
 		srvNew = nsCall
 		if w := ir.NormCell(wait.Call.Args[0]); ir.IsExtractOf(ir.NormCell(nsCall.Call.Args[0]), assigner, 0) && (w == ssa.Value(start) || w == ssa.Value(nsCall)) {
 			okSrv = true
@@ -1521,7 +1631,7 @@ func ruleLoop(c *chk.Ctx) {
 		gc := classifyOne(c, g)
 		stops := false
 		ir.Calls(b, func(ci ssa.CallInstruction) {
-			if ci.Common().StaticCallee() != nil && ci.Common().StaticCallee().Name() == "Stop" {
+			if ci.Common().StaticCallee() != nil && ir.BaseName(ci.Common().StaticCallee()) == "Stop" {
 				if r := ir.NormCell(ci.Common().Args[0]); r == ssa.Value(start) || (srvNew != nil && r == ssa.Value(srvNew)) {
 					stops = true
 				}
@@ -1537,7 +1647,7 @@ func ruleLoop(c *chk.Ctx) {
 			if len(b.Blocks) > 0 && len(b.Blocks[0].Instrs) > 0 {
 				q := ir.PathQuery{Goal: func(i ssa.Instruction) bool {
 					ci, ok := i.(ssa.CallInstruction)
-					return ok && ci.Common().StaticCallee() != nil && ci.Common().StaticCallee().Name() == "Stop"
+					return ok && ci.Common().StaticCallee() != nil && ir.BaseName(ci.Common().StaticCallee()) == "Stop"
 				}}
 				if ok, _ := q.MustReach(b.Blocks[0].Instrs[0]); !ok {
 					okStop = false
@@ -1573,7 +1683,7 @@ func ruleLoop(c *chk.Ctx) {
 		for _, rw := range rows {
 			closing, notClosing := false, false
 			for _, cd := range rw.conds {
-				if call, ok := cd.V.(*ssa.Call); ok && call.Call.StaticCallee() != nil && call.Call.StaticCallee().Name() == "IsErrClosing" {
+				if call, ok := cd.V.(*ssa.Call); ok && call.Call.StaticCallee() != nil && ir.BaseName(call.Call.StaticCallee()) == "IsErrClosing" {
 					if cd.Truth {
 						closing = true
 					} else {
